@@ -46,9 +46,11 @@ def run(ctx):
         n = 120 if quick else 1500
         scns = []
         for i in range(n):
-            s = maptrace.gen_scenario(rng, max_levels=4, max_leaves=7, min_leaves=1,
-                                      ncell=rng.randint(1, 10))
             m = i % 6
+            big = (m == 5 and i % 4 == 1)
+            # TLC integers are 32-bit: the running product B^depth must stay below 2^31
+            s = maptrace.gen_scenario(rng, max_levels=2 if big else 4, max_leaves=7, min_leaves=1,
+                                      ncell=rng.randint(1, 10))
             if m == 0:
                 s['cfg']['B'] = 1
             elif m == 1:
